@@ -129,7 +129,7 @@ def site(i, jv, k, s):
     if i == 1:
         return P("%s.eta()" % jv)
     if i == 2:
-        return P("%s.Tracks().Select(lambda t: t.pt()).Count()" % jv)
+        return P("%s.Tracks().Select(lambda j: j.pt()).Count()" % jv)     # the inner parameter re-uses the name of the enclosing lambda's parameter (another class)
     if i == 3:
         return P("%s.Tracks().Where(lambda t: t.eta() > 1).Count()" % jv)
     if i == 4:
